@@ -55,12 +55,17 @@ pub struct Case {
     pub steps: Vec<Op>,
 }
 
-type Mirror = BTreeMap<String, (Option<Nexthop>, Vec<(u8, u8, Option<u32>, Option<Vec<u8>>)>)>;
+pub(crate) type Mirror = BTreeMap<String, (Option<Nexthop>, Vec<(u8, u8, Option<u32>, Option<Vec<u8>>)>)>;
 
 fn attr_view(attrs: &[packet::Attribute]) -> Vec<(u8, u8, Option<u32>, Option<Vec<u8>>)> {
     let mut v: Vec<_> = attrs.iter().map(|a| (a.code(), a.flags() & !0x10, a.value(), a.binary().cloned())).collect();
     v.sort();
     v
+}
+
+/// does an attribute view (attr_view) hold the community `c`?
+pub(crate) fn attr_has_community(attrs: &[(u8, u8, Option<u32>, Option<Vec<u8>>)], c: u32) -> bool {
+    attrs.iter().filter(|a| a.0 == 8).filter_map(|a| a.3.as_ref()).any(|b| b.chunks_exact(4).any(|x| x == c.to_be_bytes()))
 }
 
 fn export_policies() -> Vec<Option<Arc<table::PolicyAssignment>>> {
@@ -126,19 +131,19 @@ fn session_codecs(addpath: bool) -> (PeerCodec, PeerCodec) {
     codecs(&local, &remote)
 }
 
-struct Wire {
+pub(crate) struct Wire {
     enc: PeerCodec,
     dec: PeerCodec,
-    mirror: Mirror,
-    withdrawals: u64,
+    pub(crate) mirror: Mirror,
+    pub(crate) withdrawals: u64,
 }
 
 impl Wire {
-    fn new(addpath: bool) -> Self {
+    pub(crate) fn new(addpath: bool) -> Self {
         let (enc, dec) = session_codecs(addpath);
         Wire { enc, dec, mirror: Mirror::new(), withdrawals: 0 }
     }
-    fn send(&mut self, msgs: Vec<Message>) -> Result<(), Failure> {
+    pub(crate) fn send(&mut self, msgs: Vec<Message>) -> Result<(), Failure> {
         for m in msgs {
             let mut buf = BytesMut::new();
             match catch(|| self.enc.encode_to(&m, &mut buf)) {
@@ -353,8 +358,14 @@ pub fn run(r: &Run) {
     r.assume("the neighbour is driven by a shadow of PeerSession's export side that calls the daemon's own ExportMap / PendingTx / GroupedSink / process_nlri_change / register_peer / collect_loc_rib_paths_limited in the order on_established, handle_prefix_update and do_route_refresh use; sockets, keepalives and the FSM are not involved");
     r.assume("RTC filters and per-peer BMP taps are not generated");
     r.prop("export-histories", r.tier.pick(120_000, 3_000_000), || arb_case(r.tier.pick(24, 48)), check);
+    // "under the current policy": a policy whose outcome depends on a table outside the RIB (origin validation)
+    r.assume(super::rpkiexp::RULE);
+    r.prop("export-rpki", r.tier.pick(30_000, 600_000), || super::rpkiexp::arb_case(r.tier.pick(20, 36)), super::rpkiexp::check);
 }
 
-pub fn replay(_sub: &str, case: &Value) -> Result<CheckResult, String> {
+pub fn replay(sub: &str, case: &Value) -> Result<CheckResult, String> {
+    if sub == "export-rpki" {
+        return super::rpkiexp::replay(case);
+    }
     Ok(check(&decode_case(case)?))
 }
